@@ -29,10 +29,10 @@ func runC19(c *Ctx) {
 	for _, t := range []struct{ pkg, typ string }{{"type1", "Font"}, {"afm", "Metrics"}} {
 		c.glyphListRules(t.pkg, t.typ)
 	}
-	c.bboxRules("type1", "Glyph", "BBox", false)
-	c.bboxRules("type1", "Font", "GlyphBBoxPDF", true)
-	c.fontBBoxRules()
-	c.widthRules()
+	c.bboxRulesSSA("type1", "Glyph", "BBox", false)
+	c.bboxRulesSSA("type1", "Font", "GlyphBBoxPDF", true)
+	c.fontBBoxRulesSSA()
+	c.widthRulesSSA()
 }
 
 func (c *Ctx) glyphListRules(pkg, typ string) {
@@ -172,241 +172,3 @@ func sortedKV(m map[string]string) []string {
 	return out
 }
 
-func (c *Ctx) bboxRules(pkg, typ, method string, pdf bool) {
-	info := c.info(pkg)
-	fd := c.funcDecl(pkg, typ, method)
-	name := pkg + ".(*" + typ + ")." + method
-	// coordinate variables from the switch over the command type
-	var xVar, yVar types.Object
-	okEnds := true
-	var sw *ast.SwitchStmt
-	ast.Inspect(fd.Body, func(n ast.Node) bool {
-		if s, ok := n.(*ast.SwitchStmt); ok && s.Tag != nil && sw == nil {
-			sw = s
-		}
-		return true
-	})
-	if sw == nil {
-		c.fail("Q-BBOX", name, "command switch", fd.Pos(), "no switch over the path command type")
-		return
-	}
-	for _, cc := range sw.Body.List {
-		cl := cc.(*ast.CaseClause)
-		var ops []string
-		for _, e := range cl.List {
-			ops = append(ops, types.ExprString(e))
-		}
-		sort.Strings(ops)
-		key := strings.Join(ops, ",")
-		var wantX, wantY int64 = -1, -1
-		switch key {
-		case "OpLineTo,OpMoveTo":
-			wantX, wantY = 0, 1
-		case "OpCurveTo":
-			wantX, wantY = 4, 5
-		case "":
-			continue
-		default:
-			okEnds = false
-			continue
-		}
-		got := map[string]int64{}
-		for _, st := range cl.Body {
-			if as, ok := st.(*ast.AssignStmt); ok && len(as.Lhs) == 1 && len(as.Rhs) == 1 {
-				if ix, ok := as.Rhs[0].(*ast.IndexExpr); ok && strings.HasSuffix(types.ExprString(ix.X), ".Args") {
-					k, _ := constIntOf(info, ix.Index)
-					id := as.Lhs[0].(*ast.Ident)
-					got[id.Name] = k
-					if k == wantX {
-						if xVar != nil && xVar != info.ObjectOf(id) {
-							okEnds = false
-						}
-						xVar = info.ObjectOf(id)
-					}
-					if k == wantY {
-						if yVar != nil && yVar != info.ObjectOf(id) {
-							okEnds = false
-						}
-						yVar = info.ObjectOf(id)
-					}
-				}
-			}
-		}
-		if len(got) != 2 {
-			okEnds = false
-		}
-	}
-	c.check(okEnds && xVar != nil && yVar != nil && xVar != yVar, "Q-BBOX", name, "end points: Args[0],Args[1] of moves and lines, Args[4],Args[5] of curves", sw.Pos(), "", "the bounding box does not use the end point of every move, line and curve command (x from Args[0]/Args[4], y from Args[1]/Args[5])")
-	if xVar == nil || yVar == nil {
-		return
-	}
-	// guarded updates
-	type upd struct{ acc, op, v string }
-	var upds []upd
-	firstVar := ""
-	ast.Inspect(fd.Body, func(n ast.Node) bool {
-		ifs, ok := n.(*ast.IfStmt)
-		if !ok || len(ifs.Body.List) != 1 {
-			return true
-		}
-		be, ok := ifs.Cond.(*ast.BinaryExpr)
-		if !ok || be.Op != token.LOR {
-			return true
-		}
-		fid, ok := be.X.(*ast.Ident)
-		cmp, ok2 := be.Y.(*ast.BinaryExpr)
-		as, ok3 := ifs.Body.List[0].(*ast.AssignStmt)
-		if !ok || !ok2 || !ok3 || len(as.Lhs) != 1 {
-			return true
-		}
-		firstVar = fid.Name
-		v, okv := cmp.X.(*ast.Ident)
-		if !okv || types.ExprString(cmp.Y) != types.ExprString(as.Lhs[0]) || types.ExprString(as.Rhs[0]) != v.Name {
-			upds = append(upds, upd{types.ExprString(as.Lhs[0]), "?", "?"})
-			return true
-		}
-		role := "?"
-		if info.ObjectOf(v) == xVar {
-			role = "x"
-		} else if info.ObjectOf(v) == yVar {
-			role = "y"
-		}
-		upds = append(upds, upd{types.ExprString(as.Lhs[0]), cmp.Op.String(), role})
-		return true
-	})
-	// map accumulators to rectangle fields
-	fieldOfAcc := map[string]string{}
-	if pdf {
-		for _, u := range upds {
-			if i := strings.LastIndex(u.acc, "."); i >= 0 {
-				fieldOfAcc[u.acc] = u.acc[i+1:]
-			}
-		}
-	} else {
-		ast.Inspect(fd.Body, func(n ast.Node) bool {
-			if r, ok := n.(*ast.ReturnStmt); ok && len(r.Results) == 1 {
-				if cl, ok := r.Results[0].(*ast.CompositeLit); ok {
-					for _, e := range cl.Elts {
-						if kv, ok := e.(*ast.KeyValueExpr); ok {
-							fieldOfAcc[types.ExprString(kv.Value)] = types.ExprString(kv.Key)
-						}
-					}
-				}
-			}
-			return true
-		})
-	}
-	want := map[string]string{"LLx": "< x", "URx": "> x", "LLy": "< y", "URy": "> y"}
-	got := map[string]string{}
-	for _, u := range upds {
-		got[fieldOfAcc[u.acc]] = u.op + " " + u.v
-	}
-	okU := len(upds) == 4
-	for k, w := range want {
-		if got[k] != w {
-			okU = false
-		}
-	}
-	c.check(okU, "Q-BBOX", name, "LLx/LLy updated under `first || v < cur`, URx/URy under `first || v > cur`, x with x and y with y", fd.Pos(), fmt.Sprint(sortedKV(got)), fmt.Sprintf("bounding box updates are %v, expected %v", sortedKV(got), sortedKV(want)))
-	// first cleared at the end of the loop body
-	okFirst := false
-	ast.Inspect(fd.Body, func(n ast.Node) bool {
-		if rs, ok := n.(*ast.RangeStmt); ok {
-			if len(rs.Body.List) > 0 {
-				if as, ok := rs.Body.List[len(rs.Body.List)-1].(*ast.AssignStmt); ok && types.ExprString(as.Lhs[0]) == firstVar && types.ExprString(as.Rhs[0]) == "false" {
-					okFirst = true
-				}
-			}
-		}
-		return true
-	})
-	c.check(okFirst, "Q-BBOX", name, "the first point initialises all four sides", fd.Pos(), "first = false at the end of the loop body", "the `first` flag is not cleared after the first end point")
-	if pdf {
-		txt := nodeString(c, fd.Body)
-		okM := strings.Contains(txt, "f.FontMatrix.Mul(matrix.Scale(1000, 1000))")
-		// Apply on every point, inside the loop, before the comparisons
-		okApply := false
-		ast.Inspect(fd.Body, func(n ast.Node) bool {
-			rs, ok := n.(*ast.RangeStmt)
-			if !ok {
-				return true
-			}
-			for _, st := range rs.Body.List {
-				if as, ok := st.(*ast.AssignStmt); ok && len(as.Lhs) == 2 && len(as.Rhs) == 1 {
-					if call, ok := as.Rhs[0].(*ast.CallExpr); ok && strings.HasSuffix(types.ExprString(call.Fun), ".Apply") && len(call.Args) == 2 {
-						l0, _ := as.Lhs[0].(*ast.Ident)
-						l1, _ := as.Lhs[1].(*ast.Ident)
-						a0, _ := call.Args[0].(*ast.Ident)
-						a1, _ := call.Args[1].(*ast.Ident)
-						if l0 != nil && l1 != nil && a0 != nil && a1 != nil && info.ObjectOf(l0) == xVar && info.ObjectOf(l1) == yVar && info.ObjectOf(a0) == xVar && info.ObjectOf(a1) == yVar {
-							okApply = true
-						}
-					}
-				}
-			}
-			return true
-		})
-		c.check(okM && okApply, "Q-BBOX", name, "every end point is mapped through FontMatrix·Scale(1000,1000) before it is compared", fd.Pos(), "x, y = M.Apply(x, y) in the loop", "the PDF bounding box does not transform each end point with FontMatrix × 1000 before taking minima and maxima (mapping only the corners is wrong for matrices with negative scale or shear)")
-		// unknown glyph → zero rectangle
-		okZero := false
-		if len(fd.Body.List) >= 2 {
-			if ifs, ok := fd.Body.List[1].(*ast.IfStmt); ok && types.ExprString(ifs.Cond) == "!ok" {
-				if r, ok := ifs.Body.List[0].(*ast.ReturnStmt); ok && len(r.Results) == 0 {
-					okZero = true
-				}
-			}
-		}
-		c.check(okZero, "Q-BBOX", name, "unknown glyph → zero rectangle", fd.Pos(), "if !ok { return }", "a missing glyph does not yield the zero rectangle")
-	}
-}
-
-func (c *Ctx) fontBBoxRules() {
-	for _, m := range []string{"FontBBox", "FontBBoxPDF"} {
-		fd := c.funcDecl("type1", "Font", m)
-		txt := nodeString(c, fd.Body)
-		okSkip := strings.Contains(txt, ".IsZero() { continue }")
-		okUnion := strings.Contains(txt, ".Extend(")
-		c.check(okSkip && okUnion, "Q-FONTBBOX", "type1.(*Font)."+m, "zero glyph boxes are skipped, the rest is united", fd.Pos(), "IsZero → continue; first/Extend", fmt.Sprintf("font bounding box: skips empty glyph boxes: %v, unites with Extend: %v", okSkip, okUnion))
-	}
-	fd := c.funcDecl("afm", "Metrics", "FontBBoxPDF")
-	txt := nodeString(c, fd.Body)
-	c.check(strings.Contains(txt, ".Extend(") && strings.Contains(txt, "range f.Glyphs"), "Q-FONTBBOX", "afm.(*Metrics).FontBBoxPDF", "union over all glyph boxes (Extend ignores zero boxes)", fd.Pos(), "", "the AFM font box is not the union over all glyphs")
-}
-
-func (c *Ctx) widthRules() {
-	w1 := c.funcDecl("type1", "Font", "WidthsMapPDF")
-	w2 := c.funcDecl("type1", "Font", "GlyphWidthPDF")
-	scaleStmts := func(fd *ast.FuncDecl) (string, int) {
-		var parts []string
-		n1000 := 0
-		for _, st := range fd.Body.List {
-			s := nodeString(c, st)
-			if strings.Contains(s, "FontMatrix") {
-				parts = append(parts, s)
-			}
-		}
-		ast.Inspect(fd.Body, func(n ast.Node) bool {
-			if bl, ok := n.(*ast.BasicLit); ok && bl.Value == "1000" {
-				n1000++
-			}
-			return true
-		})
-		return strings.Join(parts, " | "), n1000
-	}
-	s1, k1 := scaleStmts(w1)
-	s2, k2 := scaleStmts(w2)
-	c.check(s1 == s2 && k1 == 1 && k2 == 1 && strings.Contains(s1, "q := f.FontMatrix[0]"), "Q-WIDTH", "type1.(*Font).GlyphWidthPDF / WidthsMapPDF", "both compute the horizontal scale by the same statements and multiply by 1000 once", w2.Pos(), s1,
-		fmt.Sprintf("the per-glyph width and the width map scale differently: `%s` (×1000: %d) vs `%s` (×1000: %d)", s1, k1, s2, k2))
-	t2 := nodeString(c, w2.Body)
-	okFB := strings.Contains(t2, `f.Glyphs[".notdef"]`) && strings.Contains(t2, "if !ok { return 0 }")
-	c.check(okFB, "Q-WIDTH", "type1.(*Font).GlyphWidthPDF", "unknown names fall back to .notdef, then 0", w2.Pos(), "", "GlyphWidthPDF does not fall back to the width of .notdef and then to 0")
-	// result = WidthX * scale
-	okRes := strings.Contains(t2, "return g.WidthX * (q * 1000)") || strings.Contains(t2, "return g.WidthX * q")
-	t1 := nodeString(c, w1.Body)
-	okRes = okRes && strings.Contains(t1, "= glyph.WidthX * q")
-	c.check(okRes, "Q-WIDTH", "type1.(*Font).GlyphWidthPDF / WidthsMapPDF", "width = advance width × scale", w2.Pos(), "", "the PDF width is not the product of the advance width and the scale (e.g. a point transformation adds the matrix translation)")
-	// afm
-	a := c.funcDecl("afm", "Metrics", "GlyphWidthPDF")
-	ta := nodeString(c, a.Body)
-	c.check(strings.Contains(ta, `f.Glyphs[".notdef"]`) && strings.Contains(ta, "return 0") && strings.Contains(ta, "return glyph.WidthX"), "Q-WIDTH", "afm.(*Metrics).GlyphWidthPDF", "glyph width, else .notdef, else 0", a.Pos(), "", "afm GlyphWidthPDF does not fall back to .notdef and 0")
-}
